@@ -18,7 +18,8 @@ func init() {
 			for _, N := range c13Widths {
 				N := N
 				items = append(items, Item{ID: fmt.Sprintf("write/N=%d", N), Run: func(c *Ctx) { c13write(c, N) }})
-				items = append(items, Item{ID: fmt.Sprintf("read/N=%d", N), Run: func(c *Ctx) { c13read(c, N) }})
+				items = append(items, Item{ID: fmt.Sprintf("read/N=%d/right", N), Run: func(c *Ctx) { c13readSide(c, N, false) }})
+				items = append(items, Item{ID: fmt.Sprintf("read/N=%d/left", N), Run: func(c *Ctx) { c13readSide(c, N, true) }})
 				if N > 0 {
 					items = append(items, Item{ID: fmt.Sprintf("read-short/N=%d", N), Run: func(c *Ctx) { c13short(c, N) }})
 				}
@@ -98,6 +99,12 @@ func c13write(c *Ctx, N int) {
 }
 
 func c13read(c *Ctx, N int) {
+	for _, side := range []bool{false, true} {
+		c13readSide(c, N, side)
+	}
+}
+
+func c13readSide(c *Ctx, N int, leftSide bool) {
 	e := c.e()
 	fn := c.w.fn("codec.ReadFixedStringTrimPadding")
 	if fn == nil {
@@ -109,22 +116,19 @@ func c13read(c *Ctx, N int) {
 	for i := range w {
 		w[i] = e.freshVar("w", 8)
 	}
-	pad, left := padArgs(c, s)
+	pad, _ := padArgs(c, s)
+	left := B(leftSide)
 	p8 := Extract(7, 0, pad)
 	bufID := s.newObj(&Obj{Kind: kBuffer, B: VecBytes(w), R: CI(0)})
 	steps := func(val func(*Term) uint64) []map[string]any {
 		return []map[string]any{
 			step("op", "newbuf", "buf", "b", "hex", hexOf(evalTerms(w, val))),
-			step("op", "prim", "fn", "ReadFixedStringTrimPadding", "args", []any{map[string]any{"buf": "b"}, fmt.Sprint(N), fmt.Sprint(val(pad)), val(left) == 1}),
+			step("op", "prim", "fn", "ReadFixedStringTrimPadding", "args", []any{map[string]any{"buf": "b"}, fmt.Sprint(N), fmt.Sprint(val(pad)), leftSide}),
 		}
 	}
-	// specification
-	fsR := &FieldSpec{Width: N}
-	_ = fsR
-	specRight := trimSym(w[:N], p8, false)
-	specLeft := trimSym(w[:N], p8, true)
-	e.pushCall(s, fn, []Value{&Ptr{Obj: bufID}, CI(int64(N)), pad, left}, nil)
-	for _, fs := range e.Run(s) {
+	spec := trimSym(w[:N], p8, leftSide)
+	sideName := map[bool]string{false: "right", true: "left"}[leftSide]
+	for _, fs := range e.RunMerged(s, fn, []Value{&Ptr{Obj: bufID}, CI(int64(N)), pad, left}) {
 		if c.PathProblem(fs, "ReadFixedStringTrimPadding", func(val func(*Term) uint64, msg string) *Violation {
 			return &Violation{Obligation: "no-panic", Detail: "ReadFixedStringTrimPadding panics: " + msg, Replay: &ReplayReq{Steps: steps(val), Judge: Judge{Kind: "panic"}}}
 		}) {
@@ -132,25 +136,33 @@ func c13read(c *Ctx, N int) {
 		}
 		rv := fs.ret.(TupleV)
 		got := rv[0].(*StringV).B
-		spec := MergeBytes(left, specLeft, specRight)
 		mk := func(what string) func(val func(*Term) uint64) *Violation {
 			return func(val func(*Term) uint64) *Violation {
-				return &Violation{Detail: what, Model: map[string]any{"image_hex": hexOf(evalTerms(w[:N], val)), "N": N, "pad": val(pad), "left": val(left) == 1, "engine_result_hex": hexOf(evalBytes(got, val))},
+				return &Violation{Detail: what, Model: map[string]any{"image_hex": hexOf(evalTerms(w[:N], val)), "N": N, "pad": val(pad), "left": leftSide, "engine_result_hex": hexOf(evalBytes(got, val))},
 					Replay: &ReplayReq{Steps: steps(val), Judge: Judge{Kind: "ret_ne", Step: 1, ExpectRet: map[string]any{"$hex": hexOf(evalBytes(spec, val))}}}}
 			}
 		}
 		if !isNilErr(rv[1]) {
-			c.Prove(fs, "succeeds", False, mk("reader returns an error on a full-width image"))
+			c.Prove(fs, sideName+":succeeds", False, mk("reader returns an error on a full-width image"))
 			continue
 		}
 		c.Witness(fs, "read", func(val func(*Term) uint64) any {
-			return map[string]any{"image_hex": hexOf(evalTerms(w[:N], val)), "pad": val(pad), "left": val(left) == 1, "text_hex": hexOf(evalBytes(got, val))}
+			return map[string]any{"image_hex": hexOf(evalTerms(w[:N], val)), "pad": val(pad), "left": leftSide, "text_hex": hexOf(evalBytes(got, val))}
 		})
-		c.Prove(fs, "consumes-N", Eq(unreadLen(fs.heap[bufID]), CI(1)), func(val func(*Term) uint64) *Violation {
+		c.Prove(fs, sideName+":consumes-N", Eq(unreadLen(fs.heap[bufID]), CI(1)), func(val func(*Term) uint64) *Violation {
 			return &Violation{Detail: "reader does not consume exactly N bytes", Replay: &ReplayReq{Steps: steps(val), Judge: Judge{Kind: "buf_ne", Step: 1, ExpectHex: hexOf([]byte{byte(val(w[N]))})}}}
 		})
-		if c.Prove(fs, "strip-length", Eq(got.Len, spec.Len), mk("length of the returned text differs from: N minus the maximal run of the pad byte on the pad side")) {
-			c.Prove(fs, "strip-content", textEq(spec, got, N), mk("returned text differs from the field bytes with only the pad run removed"))
+		if c.Prove(fs, sideName+":strip-length", Eq(got.Len, spec.Len), mk("length of the returned text differs from: N minus the maximal run of the pad byte on the pad side")) {
+			// content in chunks (each position: inside the text => byte equals the specified one)
+			const chunk = 16
+			for lo := 0; lo < N; lo += chunk {
+				var cs []*Term
+				for j := lo; j < lo+chunk && j < N; j++ {
+					in := Lt(CI(int64(j)), spec.Len, true)
+					cs = append(cs, Implies(in, Eq(spec.At(CI(int64(j))), got.At(CI(int64(j))))))
+				}
+				c.Prove(fs, fmt.Sprintf("%s:strip-content[%d..%d)", sideName, lo, min(lo+chunk, N)), And(cs...), mk("returned text differs from the field bytes with only the pad run removed"))
+			}
 		}
 	}
 }
